@@ -161,6 +161,19 @@ def valid_case(draw, tier="quick"):
                 xs[i] = draw(st.sampled_from(planted))
         extra = {"bound_unit": draw(st.sampled_from(["same", "s", "s"])),
                  "dtype_param": draw(st.sampled_from([None, "datetime64", "datetime64", "unit"]))}
+    elif kind == "dt" and draw(st.integers(0, 2)) == 0:
+        # bounds finer than the data: whole-second instants in a datetime64[s] array, bounds on half seconds
+        unit = "s"
+        lo_c = None if lo_c is None else lo_c + draw(st.sampled_from([0.0, 0.5, -0.5]))
+        hi_c = None if hi_c is None else max(hi_c + draw(st.sampled_from([0.0, 0.5, -0.5])), lo_c if lo_c is not None else hi_c - 1)
+        extra = {"fine_bounds": True}
+    if kind == "float" and draw(st.integers(0, 3)) == 0:
+        # whole-number data held in an integer array (signed, unsigned or masked), bounds possibly on half steps or
+        # absent, dtype= left out or given explicitly as float64
+        xs = [None if v is None else float(round(v)) for v in xs]
+        lo_c = None if lo_c is None else float(round(lo_c)) + draw(st.sampled_from([0.0, 0.5, -0.5]))
+        hi_c = None if hi_c is None else max(float(round(hi_c)) + draw(st.sampled_from([0.0, 0.5, -0.5])), lo_c if lo_c is not None else -1e9)
+        extra = {"int_data": draw(st.sampled_from(["int64", "int32", "int64+float64"]))}
     return {"kind": kind, "x": xs, "lo": lo_c, "hi": hi_c, "si": draw(st.booleans()), "ei": draw(st.booleans()), **extra,
             "unit": unit, "absent_as": draw(st.sampled_from(["none", "nan"])),
             "bound_type": draw(st.sampled_from(["np", "py"])), "span_kind": draw(st.sampled_from(["list", "tuple"])),
@@ -174,6 +187,14 @@ def _valid_inputs(case):
     unit = case["unit"]
     if case["kind"] == "float":
         a = arr(case["x"])
+        idt = case.get("int_data")
+        if idt and all(v is None or float(v) == int(v) for v in case["x"]):
+            if all(v is not None for v in case["x"]):
+                a = np.array([int(v) for v in case["x"]], dtype=idt.split("+")[0])
+            elif case.get("mask_carrier", "none") == "none":
+                # integers cannot hold NaN: missing members of integer data are masked
+                a = np.ma.MaskedArray(np.array([0 if v is None else int(v) for v in case["x"]], dtype=idt.split("+")[0]),
+                                      mask=np.array([v is None for v in case["x"]], dtype=bool))
 
         def bnd(v):
             if v is None:
@@ -187,7 +208,9 @@ def _valid_inputs(case):
             if v is None:
                 return None if case["absent_as"] == "none" else np.datetime64("NaT")
             if case["bound_type"] == "py":
-                return dtm.datetime(1970, 1, 1) + dtm.timedelta(seconds=int(v))
+                return dtm.datetime(1970, 1, 1) + dtm.timedelta(milliseconds=int(round(float(v) * 1000)))
+            if float(v) != int(v):
+                return np.datetime64(int(round(float(v) * 1000)), "ms")
             bu = unit if case.get("bound_unit", "same") == "same" else "s"
             return np.datetime64(int(v), "s").astype(f"datetime64[{bu}]")
     mc = case.get("mask_carrier", "none")
@@ -224,11 +247,17 @@ def check_valid(case, rec):
         labels.append("dtype_given")
     if any(v is not None and float(v) != int(v) for v in x):
         labels.append("subsecond_data")
+    if case.get("int_data"):
+        labels.append("int_data")
+    if case.get("fine_bounds"):
+        labels.append("bounds_finer_than_data")
     rec.note(on, labels)
     a, span = _valid_inputs(case)
     kw = {} if case.get("defaults") else {"start_inclusive": si, "end_inclusive": ei}
     if case.get("dtype_param") and case.get("bound_type") == "np":
         kw["dtype"] = "datetime64" if case["dtype_param"] == "datetime64" else f"datetime64[{case['unit']}]"
+    if str(case.get("int_data", "")).endswith("+float64"):
+        kw["dtype"] = np.float64
     site = "axds.valid_range_test"
     got = flags(rec, site, rec.call(site, _vr(), a, span, **kw), len(x))
     if got is SKIP:
